@@ -726,6 +726,9 @@ def _gen_bounds(rng, kind):
         r = rng.random()
         if r < 0.2:
             out.append((0, 0))
+        elif r < 0.32:
+            c = float(rng.integers(1, 20)) / 4 * (1 if rng.random() < 0.5 else -1)
+            out.append((c, c))                 # pinned away from zero: a degenerate interval that is NOT the documented (0, 0)
         elif kind == "exclude0" or (kind == "mixed" and r < 0.6):
             lo = float(rng.integers(1, 20)) / 4 * (1 if rng.random() < 0.5 else -1)
             wd = float(rng.integers(1, 16)) / 4
